@@ -65,7 +65,8 @@ def gen_field(rng):
             d[k] = None
             continue
         if k == 'type':
-            d[k] = ftype if rng.random() < 0.8 else rng.sample(['int', 'real', 'bool', 'string', 'date'], 2)
+            r_ = rng.random()
+            d[k] = ftype if r_ < 0.7 else [ftype] if r_ < 0.82 else rng.sample(['int', 'real', 'bool', 'string', 'date'], 2)
         elif k in ('min', 'max'):
             if ftype == 'date':
                 v = gen_date(rng)
@@ -93,9 +94,11 @@ def gen_field(rng):
         items = list(d.items())
         rng.shuffle(items)      # hand-written files list the kinds in any order
         d = dict(items)
-    if ftype == 'date' and 'type' in d and d['type'] != 'date' and any(k in d for k in ('min', 'max')):
+    # (a one-element list is a list: the loader reads bounds as dates only under the plain type 'date')
+    if ftype == 'date' and 'type' in d and d['type'] not in ('date', ['date']) and any(k in d for k in ('min', 'max')):
         d['type'] = 'date'
-    if any(is_date_text(d.get(k)) or (isinstance(d.get(k), dict) and is_date_text(d[k]['value'])) for k in ('min', 'max')):
+    if d.get('type') != ['date'] and \
+            any(is_date_text(d.get(k)) or (isinstance(d.get(k), dict) and is_date_text(d[k]['value'])) for k in ('min', 'max')):
         d['type'] = 'date'
     return d
 
@@ -108,7 +111,9 @@ def gen_set(rng):
     d = {'fields': fields}
     if rng.random() < 0.3:
         d['creation_metadata'] = {'local_time': '2024-01-02T03:04:05', 'creator': 'TDDA 2.2', 'host': 'h',
-                                  'n_records': 5, 'dataset': 'données.csv'}
+                                  'n_records': rng.choice([5, 0]), 'dataset': rng.choice(['données.csv', ''])}
+        if rng.random() < 0.5:
+            d['creation_metadata']['n_selected'] = rng.choice([0, 3])
     return d
 
 
@@ -227,7 +232,7 @@ class C09(core.Prop):
 
     def gen_case(self, rng, i):
         if rng.random() < 0.25:
-            fr = cx.gen_frame(rng, fams=[f for f in cx.FAMILIES if f not in ('str',)])
+            fr = cx.gen_frame(rng, fams=[f for f in cx.FAMILIES if f not in ('str',) + cx.OPT_IN])
             return {'discover': fr, 'rex': rng.random() < 0.4}
         return {'set': gen_set(rng), 'cycles': rng.randint(1, 3), 'unknown_seed': rng.randrange(10 ** 6)}
 
@@ -385,7 +390,8 @@ class C09(core.Prop):
                 if cs0 is None:
                     return F
                 cs0.clear_metadata()
-                for k in ('local_time', 'utc_time', 'host', 'user', 'creator', 'source', 'dataset', 'n_records', 'n_selected', 'as_at'):
+                # (the counts stay: an empty dataset is written with n_records 0)
+                for k in ('local_time', 'utc_time', 'host', 'user', 'creator', 'source', 'dataset', 'as_at'):
                     setattr(cs0, k, None)
                 frame_for_verdicts = case['discover']
                 cycles = 2
@@ -477,6 +483,14 @@ class C09(core.Prop):
                     b = {n: dict(x) for n, x in v2.fields.items()}
                     if a != b:
                         fail('verdicts-differ', 'verdicts before and after the round trip differ')
+                    # with the default repair of column types too: the dictionary and the file are the same constraints
+                    # (fresh frames: repair rewrites the frame it is given)
+                    with quiet(), contextlib.redirect_stdout(io.StringIO()):
+                        r1 = verify_df(cx.to_df(fr), json.loads(text0))
+                        r2 = verify_df(cx.to_df(fr), path)
+                    if {n: dict(x) for n, x in r1.fields.items()} != {n: dict(x) for n, x in r2.fields.items()}:
+                        fail('verdicts-differ', 'with repair of column types: the dictionary and the file give different verdicts',
+                             'verdicts-differ:dict-vs-file:repair')
                     if 'set' in case:
                         # the dictionary as written by hand (any key order) against the re-serialised file
                         with quiet(), contextlib.redirect_stdout(io.StringIO()):
